@@ -34,6 +34,7 @@ func checkC20(c *Check) {
 	c20ImportBudget(c)
 	c20EnvCleanup(c)
 	c20MacroBudget(c)
+	c20MacroStringBudget(c)
 	c20LineBreaksAgree(c, "R6c")
 	c20EnvLast(c, "R4b")
 	_ = p
@@ -189,7 +190,8 @@ func c20Lines(c *Check) {
 
 // ---- R1
 func c20Bounds(c *Check) {
-	c.Rule("R1", "every index / slice operation of the parser packages that the compiler could not prove in bounds is discharged by a dominating guard", 10)
+	c.Rule("R1", "every index / slice operation of the parser packages that the compiler could not prove in bounds is discharged by a dominating guard", 1)
+	// (the floor is 1: a refactoring may leave the compiler fewer sites to report; an empty log fails in boundsRule)
 	boundsRule(c, "R1", []string{cfgparserRel, lexerRel})
 }
 
@@ -284,6 +286,10 @@ func boundsRule(c *Check, ruleID string, rels []string) {
 					if fn := callee(fi.Info(), call); fn != nil && fn.Pkg() != nil && !strings.Contains(fn.Pkg().Path(), ".") {
 						echo = true
 					}
+				}
+				// the call stood here before the helper-extraction pass read the new helper in place
+				if p.inlinedAt[s.File+":"+itoa(s.Line)] {
+					echo = true
 				}
 				if echo {
 					c.HoldConst(ruleID, key+":inlined-callee", fi.Decl.Pos(), true, "")
@@ -1233,11 +1239,14 @@ func c20EnvCleanup(c *Check) {
 	}
 	var sites []site
 	for _, fi := range funcsOfPkgs(c.P, cfgparserRel) {
-		for _, call := range callsIn(fi.Decl.Body) {
-			if isCall(fi.Info(), call, "regexp.Regexp.ReplaceAllString", "regexp.Regexp.ReplaceAllLiteralString") && len(call.Args) == 2 {
+		fi := fi
+		// function literals included: the pass may be made by a local closure
+		ast.Inspect(fi.Decl.Body, func(x ast.Node) bool {
+			if call, ok := x.(*ast.CallExpr); ok && isCall(fi.Info(), call, "regexp.Regexp.ReplaceAllString", "regexp.Regexp.ReplaceAllLiteralString") && len(call.Args) == 2 {
 				sites = append(sites, site{fi, call})
 			}
-		}
+			return true
+		})
 	}
 	n := 0
 	for _, st := range sites {
@@ -1376,4 +1385,96 @@ func c20MacroBudget(c *Check) {
 		}
 	}
 	c.Hold("R3c", "expandMacros:bounded-splice", r.FI.Decl.Pos(), msg == "" && n > 0, msg)
+}
+
+// ---- R3d: the in-string twin of R3c. `$(m1) = "x$(m0)$(m0)"` doubles the LENGTH of one argument per line.
+func c20MacroStringBudget(c *Check) {
+	c.Rule("R3d", "in-string macro expansion is bounded: after a macro's value is substituted into an argument (strings.Replace / ReplaceAll assigned back to the argument), every path to the next substitution or to the successful return passes a comparison of the argument's length, whose failure returns an error", 1)
+	n := 0
+	for _, fi := range funcsOfPkgs(c.P, cfgparserRel) {
+		if fi.Decl.Body == nil {
+			continue
+		}
+		var r *RuleCtx
+		info := fi.Info()
+		for _, pt := range c.P.FlowOfFunc(fi).Points() {
+			as, ok := pt.Node().(*ast.AssignStmt)
+			if !ok || len(as.Lhs) != 1 || len(as.Rhs) != 1 {
+				continue
+			}
+			call, ok := ast.Unparen(as.Rhs[0]).(*ast.CallExpr)
+			if !ok || !isCall(info, call, "strings.Replace", "strings.ReplaceAll", "strings.Replacer.Replace") || len(call.Args) < 3 {
+				continue
+			}
+			str := objOf(info, as.Lhs[0])
+			if str == nil || objOf(info, call.Args[0]) != str {
+				continue // not a substitution into the same string
+			}
+			// the substituted text comes from the macro table
+			fromTable := false
+			for _, d := range defsOfExpr(info, fi.Decl.Body, call.Args[2]) {
+				ast.Inspect(d, func(x ast.Node) bool {
+					if sel, ok := x.(*ast.SelectorExpr); ok && sel.Sel.Name == "macros" {
+						fromTable = true
+					}
+					return true
+				})
+			}
+			if !fromTable {
+				continue
+			}
+			if r == nil {
+				r = &RuleCtx{C: c, FI: fi, F: c.P.FlowOfFunc(fi), Info: info}
+				c.SawFunc(fi.Name())
+			}
+			n++
+			guards := func(b *cfgBlock, i int) bool {
+				cond, isCase := r.F.Cond(b)
+				if cond == nil || isCase {
+					return false
+				}
+				hit := false
+				ast.Inspect(cond, func(x ast.Node) bool {
+					if lc, ok := x.(*ast.CallExpr); ok && len(lc.Args) == 1 {
+						if id, isID := lc.Fun.(*ast.Ident); isID && id.Name == "len" && objOf(info, lc.Args[0]) == str {
+							hit = true
+						}
+					}
+					return true
+				})
+				return hit
+			}
+			next := func(q Pt) bool {
+				if q == pt || r.IsSuccessReturn(q) {
+					return true
+				}
+				return false
+			}
+			path, f := r.F.Reach(Query{From: []Pt{pt}, Target: next, AvoidEdge: guards})
+			c.Hold("R3d", refName(fi.Obj)+":bounded-substitution"+itoa(n), as.Pos(), !f, "a macro's value is substituted into an argument and the next substitution (or the return) is reached without the argument's length having been compared with any bound: `$(m1) = \"x$(m0)$(m0)\"` … doubles the length per line, a 1 KB input makes Read build a 2^41-byte string (it neither returns nor fails): "+r.F.Describe(path))
+		}
+	}
+	if n == 0 {
+		c.HoldConst("R3d", "no-in-string-substitution", token.NoPos, true, "")
+	}
+}
+
+// defsOfExpr: e itself and, when it is a local variable, the right-hand sides assigned to it in body.
+func defsOfExpr(info *types.Info, body ast.Node, e ast.Expr) []ast.Node {
+	out := []ast.Node{e}
+	o := objOf(info, e)
+	if o == nil {
+		return out
+	}
+	ast.Inspect(body, func(x ast.Node) bool {
+		if as, ok := x.(*ast.AssignStmt); ok && len(as.Lhs) == len(as.Rhs) {
+			for i, l := range as.Lhs {
+				if objOf(info, l) == o {
+					out = append(out, as.Rhs[i])
+				}
+			}
+		}
+		return true
+	})
+	return out
 }
